@@ -16,7 +16,9 @@ import (
 	"os/exec"
 	"path/filepath"
 	"strings"
-	"sync/atomic"
+	"runtime"
+	"strconv"
+	"sync"
 	"time"
 
 	corecrl "github.com/notaryproject/notation-core-go/revocation/crl"
@@ -242,7 +244,8 @@ var worldSeq int
 // same family that nobody ever stores (it must always be a miss).
 func newWorld(c *common.Ctx, pl *pool, nkeys int, plans []wplan) (*world, error) {
 	worldSeq++
-	root := filepath.Join(c.WorkDir, fmt.Sprintf("w%d", worldSeq))
+	root := filepath.Join(c.WorkDir, fmt.Sprintf("w%d-%d", os.Getpid(), worldSeq))
+	os.RemoveAll(root) // never inherit anything from an earlier run in a reused scratch directory
 	fc, err := crl.NewFileCache(root)
 	if err != nil {
 		return nil, err
@@ -375,7 +378,12 @@ func (w *world) probe() (DirObs, error) {
 
 // ---- stepped writers --------------------------------------------------------------------
 
-const stepTimeout = 20 * time.Second
+// stepTimeout bounds every wait of the scheduler for its own machinery (a goroutine or child
+// process reaching its next hook). It is generous: it only fires when the machine stalls (or the
+// code under test hangs). A case whose machinery timed out is ABANDONED - never an observation.
+var stepTimeout = 90 * time.Second
+
+var errAbandoned = errors.New("scheduler timeout: case abandoned")
 
 type writer interface {
 	start() error
@@ -383,41 +391,68 @@ type writer interface {
 	// await waits for the next hook report; ok=false when the writer ended instead
 	await() (step string, ok bool, err error)
 	kill()
-	finish()
+	finish() error
+	abandon()     // unblock / kill whatever is parked; never blocks for long
 	failed() bool // Set returned an error (only known for writers that ran to their end)
 }
 
-// goroutine writer: the global hook parks it on its channels. Exactly one writer runs between
-// a release and its next report, so the hook knows whose call it is.
+// goroutine writer. The hook identifies the writer by the id of the calling goroutine (registered
+// by the goroutine itself before it calls Set), so identity never depends on timing; every channel
+// operation of the hook and of the scheduler has a way out (quit / done / timeout), so neither side
+// can be left parked.
 type gwriter struct {
 	w       *world
 	idx     int
 	arrive  chan string
 	rel     chan struct{}
 	done    chan error
+	quit    chan struct{} // closed when the case is abandoned: hooks stop parking
 	ended   bool
 	started bool
+	quitted bool
 	setErr  error
 }
 
-var active atomic.Pointer[gwriter]
+var stepped sync.Map // goroutine id -> *gwriter
+
+// goid: the id of the calling goroutine, from the first line of its stack ("goroutine 123 [").
+func goid() uint64 {
+	var buf [64]byte
+	n := runtime.Stack(buf[:], false)
+	f := bytes.Fields(buf[:n])
+	if len(f) < 2 {
+		return 0
+	}
+	id, _ := strconv.ParseUint(string(f[1]), 10, 64)
+	return id
+}
 
 func installHook() {
 	file.VerifHook = func(step, _ string) {
-		h := active.Load()
-		if h == nil {
+		v, ok := stepped.Load(goid())
+		if !ok {
+			return // not a stepped writer (free-running Set, reference entries ...)
+		}
+		g := v.(*gwriter)
+		select {
+		case g.arrive <- step:
+		case <-g.quit:
 			return
 		}
-		h.arrive <- step
-		<-h.rel
+		select {
+		case <-g.rel:
+		case <-g.quit:
+		}
 	}
 }
 
 func (g *gwriter) start() error {
-	g.arrive, g.rel, g.done = make(chan string), make(chan struct{}), make(chan error, 1)
+	g.arrive, g.rel, g.done, g.quit = make(chan string), make(chan struct{}), make(chan error, 1), make(chan struct{})
 	g.started = true
-	active.Store(g)
 	go func() {
+		id := goid()
+		stepped.Store(id, g)
+		defer stepped.Delete(id)
 		g.done <- g.w.cache.Set(context.Background(), g.w.urls[g.w.plans[g.idx].key], g.w.bundle(g.idx))
 	}()
 	return nil
@@ -427,25 +462,33 @@ func (g *gwriter) release() error {
 	if g.ended || !g.started {
 		return nil
 	}
-	active.Store(g)
-	g.rel <- struct{}{}
-	return nil
+	t := time.NewTimer(stepTimeout)
+	defer t.Stop()
+	select {
+	case g.rel <- struct{}{}:
+		return nil
+	case err := <-g.done: // it was not parked: Set has returned already
+		g.ended, g.setErr = true, err
+		return nil
+	case <-t.C:
+		return errAbandoned
+	}
 }
 
 func (g *gwriter) await() (string, bool, error) {
 	if g.ended || !g.started {
 		return "", false, nil
 	}
+	t := time.NewTimer(stepTimeout)
+	defer t.Stop()
 	select {
 	case s := <-g.arrive:
 		return s, true, nil
 	case err := <-g.done:
-		g.ended = true
-		g.setErr = err
-		active.Store(nil)
+		g.ended, g.setErr = true, err
 		return "", false, nil
-	case <-time.After(stepTimeout):
-		return "", false, errors.New("goroutine writer did not reach the next hook")
+	case <-t.C:
+		return "", false, errAbandoned
 	}
 }
 
@@ -453,12 +496,38 @@ func (g *gwriter) kill() {}
 
 func (g *gwriter) failed() bool { return g.ended && g.setErr != nil }
 
-func (g *gwriter) finish() {
+func (g *gwriter) finish() error {
 	for g.started && !g.ended {
-		g.release()
-		if _, _, err := g.await(); err != nil {
-			return
+		if err := g.release(); err != nil {
+			return err
 		}
+		if _, _, err := g.await(); err != nil {
+			return err
+		}
+	}
+	return nil
+}
+
+// abandon: stop parking this writer at hooks and let its Set run to the end on its own; wait a
+// bounded time for that (the goroutine is harmless afterwards: it only touches its own world).
+func (g *gwriter) abandon() {
+	if !g.started || g.ended {
+		return
+	}
+	if !g.quitted {
+		g.quitted = true
+		close(g.quit)
+	}
+	wait := stepTimeout
+	if wait < 30*time.Second {
+		wait = 30 * time.Second
+	}
+	t := time.NewTimer(wait)
+	defer t.Stop()
+	select {
+	case err := <-g.done:
+		g.ended, g.setErr = true, err
+	case <-t.C:
 	}
 }
 
@@ -488,6 +557,16 @@ func (w *world) childExtra(i int) []string {
 		out = append(out, fmt.Sprintf("%s=%d", envFsize, w.plans[i].fsize))
 	}
 	return out
+}
+
+// machineryExit: the child ended with one of its own set-up failure codes (4: could not read its
+// inputs / set its limits, 5: lost its parent) - not a behaviour of the code under test.
+func machineryExit(cmd *exec.Cmd) bool {
+	if cmd == nil || cmd.ProcessState == nil {
+		return true
+	}
+	c := cmd.ProcessState.ExitCode()
+	return c == 4 || c == 5
 }
 
 func childCmd(mode string, root, url, bundlePath string, extra ...string) *exec.Cmd {
@@ -536,16 +615,21 @@ func (c *cwriter) await() (string, bool, error) {
 	if c.ended || c.cmd == nil {
 		return "", false, nil
 	}
+	t := time.NewTimer(stepTimeout)
+	defer t.Stop()
 	select {
 	case s, ok := <-c.lines:
 		if !ok {
 			c.ended = true
 			c.reap()
+			if machineryExit(c.cmd) {
+				return "", false, errAbandoned // the child could not even set itself up
+			}
 			return "", false, nil
 		}
 		return s, true, nil
-	case <-time.After(stepTimeout):
-		return "", false, errors.New("child writer did not reach the next hook")
+	case <-t.C:
+		return "", false, errAbandoned
 	}
 }
 
@@ -563,30 +647,37 @@ func (c *cwriter) kill() {
 	}
 	c.killed = true
 	c.cmd.Process.Kill() // SIGKILL
-	for range c.lines {
+	for range c.lines { // ends when the (dead) child's stdout is closed
 	}
 	c.ended = true
 	c.reap()
 }
 
-func (c *cwriter) finish() {
+func (c *cwriter) finish() error {
 	for c.cmd != nil && !c.ended {
 		if err := c.release(); err != nil {
-			c.kill()
-			return
+			// the pipe is gone: the child has ended (or is ending) on its own
+			if _, _, err := c.await(); err != nil {
+				return err
+			}
+			continue
 		}
 		if _, _, err := c.await(); err != nil {
-			c.kill()
-			return
+			return err
 		}
 	}
+	return nil
 }
+
+func (c *cwriter) abandon() { c.kill() }
 
 var hookAfter = map[string]string{"create": "created", "write": "written", "close": "closed", "rename": "returned", "wfail": "returned"}
 
 // runSchedule executes a trace on a fresh world and returns what was observed.
 // deviations counts hook reports that did not match the step the trace asked for (a writer that
 // ended early, another hook name): the trace is emitted as asked, so the model then disagrees.
+// err == errAbandoned: the scheduler's own machinery timed out (stalled machine); everything
+// parked has been unblocked / killed and the case must be dropped.
 func runSchedule(w *world, events []Ev) (obs Obs, deviations int, err error) {
 	obs = Obs{Gets: []ReadObs{}, Probes: []DirObs{}, Seen: []SeenObs{}, Failed: []int{}}
 	ws := make([]writer, len(w.plans))
@@ -598,51 +689,70 @@ func runSchedule(w *world, events []Ev) (obs Obs, deviations int, err error) {
 		}
 	}
 	defer func() {
-		for i, x := range ws {
-			x.finish()
-			if x.failed() {
-				obs.Failed = append(obs.Failed, i)
+		if err == nil {
+			for i, x := range ws {
+				if ferr := x.finish(); ferr != nil {
+					err = ferr
+					break
+				}
+				if x.failed() {
+					obs.Failed = append(obs.Failed, i)
+				}
 			}
 		}
-		active.Store(nil)
+		if err != nil {
+			for _, x := range ws {
+				x.abandon()
+			}
+		}
 	}()
 	for _, e := range events {
 		switch e.Kind {
 		case "get":
 			obs.Gets = append(obs.Gets, w.get(e.A))
 		case "probe":
-			d, err := w.probe()
-			if err != nil {
-				return obs, deviations, err
+			d, perr := w.probe()
+			if perr != nil {
+				return obs, deviations, perr
 			}
 			obs.Probes = append(obs.Probes, d)
 		case "crash":
 			ws[e.A].kill()
 		default:
 			x := ws[e.A]
-			var err error
+			var serr error
 			if e.Kind == "create" {
-				err = x.start()
+				serr = x.start()
 			} else {
-				err = x.release()
+				serr = x.release()
 			}
-			if err != nil {
-				return obs, deviations, err
+			if serr != nil {
+				if _, isC := x.(*cwriter); isC && e.Kind != "create" && serr != errAbandoned {
+					serr = nil // broken pipe: the child ended early; await reports it as a deviation
+				} else {
+					return obs, deviations, errAbandoned // could not start a process / timed out
+				}
 			}
-			step, ok, err := x.await()
-			if err != nil {
-				return obs, deviations, err
+			step, ok, aerr := x.await()
+			if aerr != nil {
+				return obs, deviations, aerr
 			}
 			if !ok || step != hookAfter[e.Kind] {
 				deviations++
 			}
 			if e.Kind == "rename" {
 				if g, isG := x.(*gwriter); isG {
-					g.finish() // let Set return: the write "has returned" from here on
+					// let Set return: the write "has returned" from here on
+					if ferr := g.finish(); ferr != nil {
+						return obs, deviations, ferr
+					}
 				}
 			}
 			if e.Kind == "wfail" {
-				x.finish() // the failed writer has nothing left to do but to return its error
+				// the failed writer has nothing left to do but to return its error
+				if ferr := x.finish(); ferr != nil {
+					return obs, deviations, ferr
+				}
 			}
 		}
 	}
